@@ -702,7 +702,13 @@ def run_c17(tier, seed):
     # (b) real SelectorEventLoop, real thread and fork process pools, uncontrolled timing
     import random
     rnd = random.Random('c17real/%d' % seed)
-    real = rnd.sample(progs, min(len(progs), 60 if quick else 600))
+    # (a StopIteration raised in a worker PROCESS comes back as a RuntimeError without its cause - exceptions are
+    #  pickled without __cause__ - so its provenance token cannot be recovered: such plans stay on the virtual loop)
+    def real_ok(p):
+        procs = {n['id'] for n in p['nodes'] if n['mode'] == 'process'}
+        return not any(o == 'raise:SI' for r in p['runs'] for nid, outs in r.get('plan', {}).items() if nid in procs for o in outs)
+    cands = [p for p in progs if real_ok(p)]
+    real = rnd.sample(cands, min(len(cands), 60 if quick else 600))
     groups = [real[i::6] for i in range(6)]
 
     def run_group(g):
